@@ -46,9 +46,9 @@ type BankKeeperAdapter interface {
 	// Queries
 	GetBalance(ctx context.Context, addr sdk.AccAddress, denom string) sdk.Coin
 	// Txs
-	SendCoinsFromModuleToModule(
+	SendCoins(
 		ctx context.Context,
-		senderModule, recipientModule string,
+		fromAddr, toAddr sdk.AccAddress,
 		amt sdk.Coins,
 	) error
 }
